@@ -129,8 +129,15 @@ def plan(rng, tier):
             (mapping and fam[1] == "O") or (fam[0] == "O" and hk)):
         fin = rng.choice(["len", "list", "contains", "get", "minmax",
                           "mixed", "mixed"])
+    # reference cycles through the container (a stored value refers back to
+    # it): only the cycle collector can release them
+    cyc = (not cfg["stored"]) and mapping and fam[1] == "O" and \
+        rng.random() < 0.3
     for _ in range(n):
         r = rng.random()
+        if cyc and rng.random() < 0.06:
+            out.append(["setcv", g.anykey()])
+            continue
         if fin and r < 0.14:
             if mapping and fam[1] == "O" and (not (fam[0] == "O" and hk)
                                               or rng.random() < 0.6):
@@ -410,6 +417,12 @@ def _do(c, op, dom, kind, seqs, live):
             else:
                 r = c - other
             len(r)
+            return "ok"
+        if name == "setcv":
+            v = keys.CV(op[1])
+            v.back = c
+            c[dom.key(op[1])] = v
+            v = None
             return "ok"
         if name == "setfv":
             # (the FV is referenced by the container only)
